@@ -24,10 +24,14 @@ var type3Names = []string{
 
 func makeType3(scale float64) font.Layouter {
 	em := 1 / scale
+	vscale := scale
+	if scale == 0.01 {
+		vscale = 0.015 // an anisotropic glyph space: only FontMatrix[0] scales widths
+	}
 	fnt := &type3.Font{
 		Glyphs:         []*type3.Glyph{{}},
 		PostScriptName: fmt.Sprintf("VerifT3x%d", int(em)),
-		FontMatrix:     matrix.Matrix{scale, 0, 0, scale, 0, 0},
+		FontMatrix:     matrix.Matrix{scale, 0, 0, vscale, 0, 0},
 		Ascent:         0.8 * em,
 		Descent:        -0.2 * em,
 		Leading:        1.2 * em,
